@@ -1193,6 +1193,8 @@ class C15(Check):
                                 d = dict(base)
                                 d[key] = v
                                 variants.append(d)
+                        # the values of the out-membership container moved out (a results store took them): it holds nothing
+                        variants.append(dict(base, umoved=1))
                         # pairs of simultaneous deviations (the order of the checks matters)
                         for _ in range(6):
                             d = dict(base)
@@ -1210,6 +1212,8 @@ class C15(Check):
                             n += 1
                             t = [cid, "validate", int(directed), int(assort), init] + [d[k] for k in
                                  ("nstart", "nend", "nweights", "naff", "ndistinct", "usize", "r", "maxit", "nconv")]
+                            if d.get("umoved"):
+                                t.append(1)
                             cases.append(" ".join(map(str, t)))
                             meta[cid] = (directed, assort, init, d)
         io, mo = self.correspond("validate", cases, keys=["err"])
@@ -1230,6 +1234,7 @@ class C15(Check):
                     Kk = math.isqrt(A // L)
                     ok = Kk >= 2 and Kk * Kk * L == A
                 ok = ok and d["ndistinct"] >= 2 and d["usize"] == d["ndistinct"] * Kk and d["r"] >= 1 and d["maxit"] >= 1 and d["nconv"] >= 1
+                ok = ok and not d.get("umoved")     # a container whose values were moved out holds 0 elements
             accepted = o["err"] == ["0"]
             self.nontrivial((directed, assort, init, tuple(sorted(d.items()))))
             self.dist("accepted" if accepted else "rejected:%s" % o["err"][0])
